@@ -18,7 +18,9 @@ import (
 var c04Probes = []struct{ name, body, params string }{
 	{"floats", "{1500000.0} {1.5e3 * 1000} {0.0000001} {1 / 3} {2.5 * 4} {-0.0} {1e21} {123456789.125} {$f / 8}", "f"},
 	{"nested-loop-functions", "{foreach $o in $l}{foreach $i in $ls}{index($o)}{index($i)}{isFirst($o) ? 'F' : ''}{isLast($o) ? 'L' : ''}{isLast($i) ? '!' : ''};{/foreach}{/foreach}", "l ls"},
-	{"range-loops", "{for $i in range(2, 7, 2)}{$i}:{index($i)}{isLast($i) ? '.' : ','}{/for}|{for $i in range(0)}x{ifempty}empty{/for}|{for $i in range(3)}{$i}{isFirst($i) ? 'f' : ''}{isLast($i) ? 'l' : ''}{/for}", ""},
+	{"range-loops", "{for $i in range(2, 7, 2)}{$i}:{index($i)}{isLast($i) ? '.' : ','}{/for}|{for $i in range(0)}x{ifempty}empty{/for}|{for $i in range(3)}{$i}{isFirst($i) ? 'f' : ''}{isLast($i) ? 'l' : ''}{/for}" +
+		// the bounds of a range are evaluated before the loop variable exists
+		"|{let $n: 3 /}{for $n in range($n)}{$n}{/for}|{for $n in range(1, $n + 1)}{$n}{/for}|{for $n in range(0, 2 * $n, $n)}{$n}{ifempty}e{/for}|{foreach $n in [$n, $n + 1]}{$n}{/foreach}", ""},
 	{"nullsafe-negation", "{-$m?.a} {-$m?.zz ?: 'dflt'} {$m?.a * 2} {not $m?.zz} {-(-$a)} {- -3}", "m a"},
 	{"let-in-untaken-branch", "{if $c}{let $s: 'shadow' /}{$s}{/if}{$s}{foreach $i in $l}{let $s: $i /}{$s}{/foreach}{$s}", "c s l"},
 	{"ifempty-outer-loop-var", "{foreach $j in $lm}{foreach $j in $e}x{ifempty}[{$j.s}]{/foreach}{let $j: $j.a + 1 /}{$j}{let $j}<{$j}>{/let}{$j};{/foreach}", "lm e"},
@@ -44,6 +46,28 @@ var c04Probes = []struct{ name, body, params string }{
 	{"non-finite", "{let $z: 0 /}{let $q: $z / $z /}{let $p: 1 / $z /}{let $m: -1 / $z /}{$q <= 1 ? 'T' : 'F'}{$q >= 1 ? 'T' : 'F'}{$q < 1 ? 'T' : 'F'}{$q > 1 ? 'T' : 'F'}{1 <= $q ? 'T' : 'F'}{$q == $q ? 'T' : 'F'}{$q != $q ? 'T' : 'F'}" +
 		"{$q ? 'truthy' : 'falsy'}{not $q ? 'T' : 'F'}|{$p > 1000000 ? 'T' : 'F'}{$m < 0 ? 'T' : 'F'}{$p == $p ? 'T' : 'F'}{$p >= $p ? 'T' : 'F'}{$m <= $p ? 'T' : 'F'}{$p ? 'truthy' : 'falsy'}{$p + $m == 0 ? 'T' : 'F'}{$p + $m <= 0 ? 'T' : 'F'}", ""},
 	{"msg-plain", "{msg desc=\"d\"}Hello <b>{$s}</b>, you have {$a} items{/msg}{msg desc=\"p\"}{plural $a}{case 0}none{case 1}one{default}{$a} many{/plural}{/msg}", "s a"},
+}
+
+// Variables whose names end in digits, or in the words the JavaScript backend uses for its own loop variables: every
+// variable of a template must stay a variable of its own in the generated function, however many there are. The probe
+// is the first template of its file, so that the numbering of generated names starts here.
+func init() {
+	var b strings.Builder
+	b.WriteString("{let $q1: 'first' /}{let $q11: 'second' /}{let $q12: 'third' /}{let $qList1: 'fourth' /}{let $qIndex2: 'fifth' /}{let $qLimit2: 'sixth' /}{let $param1: 'seventh' /}")
+	for k := 0; k < 150; k++ {
+		switch k % 3 {
+		case 0:
+			fmt.Fprintf(&b, "{if true}{let $q: %d /}{$q}{/if}", k)
+		case 1:
+			fmt.Fprintf(&b, "{foreach $q in [%d]}{$q}{index($q)}{isLast($q) ? 'l' : ''}{/foreach}", k)
+		default:
+			fmt.Fprintf(&b, "{call .probe_callee}{param s}%d{/param}{/call}", k)
+		}
+		if k%10 == 9 {
+			b.WriteString("[{$q1},{$q11},{$q12},{$qList1},{$qIndex2},{$qLimit2},{$param1}]\n")
+		}
+	}
+	c04Probes = append([]struct{ name, body, params string }{{"names-ending-in-digits", b.String(), ""}}, c04Probes...)
 }
 
 func c04ProbeFile() srcFile {
